@@ -10,6 +10,7 @@ pub mod util;
 pub mod world;
 pub mod wfile;
 pub mod c01_tree;
+pub mod c02_max;
 pub mod c03_filters;
 pub mod c06_triggers;
 pub mod c07_window;
@@ -19,7 +20,9 @@ pub mod c04_file;
 pub mod c05_rolling;
 pub mod c08_faults;
 pub mod c09_pattern;
+pub mod c09_units;
 pub mod c10_width;
+pub mod c10_spec;
 pub mod c11_safe;
 pub mod c12_json;
 pub mod c13_builder;
@@ -38,6 +41,7 @@ pub fn tables() -> Vec<(&'static str, &'static [(&'static str, fn())])> {
         ("probe::b13", probe::b13::TABLE),
         ("probe::bisect", probe::bisect::TABLE),
         ("c01_tree", c01_tree::TABLE),
+        ("c02_max", c02_max::TABLE),
         ("c03_filters", c03_filters::TABLE),
         ("c06_triggers", c06_triggers::TABLE),
         ("c07_window", c07_window::TABLE),
@@ -47,7 +51,9 @@ pub fn tables() -> Vec<(&'static str, &'static [(&'static str, fn())])> {
         ("c05_rolling", c05_rolling::TABLE),
         ("c08_faults", c08_faults::TABLE),
         ("c09_pattern", c09_pattern::TABLE),
+        ("c09_units", c09_units::TABLE),
         ("c10_width", c10_width::TABLE),
+        ("c10_spec", c10_spec::TABLE),
         ("c11_safe", c11_safe::TABLE),
         ("c12_json", c12_json::TABLE),
         ("c13_builder", c13_builder::TABLE),
